@@ -14,7 +14,8 @@ from harness.props import lvs_common as L
 
 RULE = ('schemas: 2-6 rules + temporary rules, references (same rule up to 3x), redefinitions, temporary patterns, '
         '0-2 constraint sets with 1-3 terms of 1-3 options (literal / pattern / $eq / $eq_type / table-driven / undefined '
-        'function), rule names in random alphabetical order; names: exhaustive to length 3 (quick) / 4 (thorough) over '
+        'function), rule names in random alphabetical order; a reference-heavy family (one rule with alternative constraint '
+        'sets reached several times, directly and through intermediate rules); names: exhaustive to length 3 (quick) / 4 (thorough) over '
         'literals + 2 fresh components, sampled to length 6, digest-suffixed and empty names; non-trivial = non-empty '
         'name; distinct by (schema text, name)')
 ASSUMPTIONS = ['lark 1.x and grammar.py are exercised, not modelled (the AST is printed to text and parsed by the real parser)',
@@ -171,6 +172,45 @@ def check_schema(ctx, ast, fe, lits, tag, maxlen, extra):
         ctx.violation('Checker.load', 'save-load-raises', f'{type(e).__name__}: {e}', case)
 
 
+def diamond(rng):
+    """Reference-heavy family: a short base rule with a (temporary or named) pattern under 1-3 ALTERNATIVE constraint
+    sets, reached several times from one rule, directly and through intermediate rules (copies of one rule meet in
+    one name, each copy free to satisfy a different alternative)."""
+    lits = rng.sample(L.LIT_POOL, 2)
+    t = rng.choice(['_x', '_x', '_', 'x'])
+    t2 = rng.choice(['_y', 'y'])
+    shape = rng.choice([0, 0, 1, 2])
+    base = [('pat', t)] if shape == 0 else [('lit', lits[0]), ('pat', t)] if shape == 1 else [('pat', t), ('pat', t2)]
+    nalt = rng.choice([1, 2, 2, 2, 3])
+    cons = []
+    for i in range(nalt):
+        cs = [(t, [('lit', (lits + ['q1'])[i % 3])] + ([('lit', rng.choice(lits))] if rng.random() < 0.2 else []))]
+        if shape == 2 and rng.random() < 0.5:
+            cs.append((t2, [('lit', rng.choice(lits))]))
+        cons.append(cs)
+    ast = [('#a', base, cons, [])]
+    if rng.random() < 0.3:
+        ast.append(('#a', [('lit', lits[1])] + base, cons[:1], []))
+    def wrap(rid, inner):
+        nm = [('ref', inner)]
+        for _ in range(rng.choice([0, 1, 1, 2])):
+            nm.insert(rng.randint(0, len(nm)), ('lit', rng.choice(lits)) if rng.random() < 0.7 else ('pat', rng.choice(['_', 'z'])))
+        return (rid, nm, [], [])
+    mids = ['#a']
+    ast.append(wrap('#b', '#a'))
+    mids.append('#b')
+    if rng.random() < 0.5:
+        ast.append(wrap('#c', rng.choice(['#a', '#b'])))
+        mids.append('#c')
+    top = [('ref', rng.choice(mids)) for _ in range(rng.choice([2, 2, 3]))]
+    if rng.random() < 0.4:
+        top.insert(rng.randint(0, len(top)), ('lit', rng.choice(lits)))
+    tcons = [[(t, [('lit', lits[0])])]] if (t[0] != '_' and rng.random() < 0.3) else []
+    ast.append(('#d', top, tcons, []))
+    rng.shuffle(ast)
+    return ast, {}, lits
+
+
 def run(ctx):
     rng = ctx.rng
     for ast, fe in CORPUS:
@@ -179,6 +219,9 @@ def run(ctx):
     for _ in range(ctx.n(70, 1500)):
         ast, fe, lits = g.schema()
         check_schema(ctx, ast, fe, lits, 'gen', ctx.n(3, 4), ctx.n(25, 200))
+    for _ in range(ctx.n(40, 600)):
+        ast, fe, lits = diamond(rng)
+        check_schema(ctx, ast, fe, lits, 'diamond', ctx.n(4, 5), ctx.n(25, 200))
     # schemas with signing relations as well (sign_cons must not disturb matching)
     g2 = L.Gen(rng, signing=True)
     for _ in range(ctx.n(15, 300)):
